@@ -260,10 +260,17 @@ func C18_DumpLoad() {
 	d := verif.Byte("digit")
 	verif.Assume(d >= '0' && d <= '9')
 	src := "var x = 3\nprint x * 1" + string([]byte{d}) + "\nprint 9 / " + string([]byte{d}) + "\n"
-	form := verif.Choice("form", 3)
+	form := verif.Choice("form", 5)
 	var dumpArgs, loadArgs []string
 	bfile := "p.bcb"
+	stdin := ""
 	switch form {
+	case 3: // the program comes from standard input (file omitted)
+		bfile, stdin = "out.bin", src
+		dumpArgs, loadArgs = []string{"--bdump=out.bin"}, []string{"--bload=out.bin"}
+	case 4: // ... or given as '-'
+		bfile, stdin = "out.bin", src
+		dumpArgs, loadArgs = []string{"--bdump=out.bin", "-"}, []string{"out.bin", "--bload"}
 	case 0:
 		dumpArgs, loadArgs = []string{"--bdump", "p.bcl"}, []string{"--bload", "p.bcb"}
 	case 1:
@@ -272,7 +279,11 @@ func C18_DumpLoad() {
 	default:
 		dumpArgs, loadArgs = []string{"--bdump", "p.bcl"}, []string{"--bload=p.bcb"}
 	}
-	s1, o1, e1, names, contents := verif.RunCmd(dumpArgs, "", []string{"p.bcl"}, []string{src})
+	// introspection flags apply to both runs alike
+	if extra := []string{"", "-d", "-t", "-dt"}[verif.Choice("extra", 4)]; extra != "" {
+		dumpArgs, loadArgs = append(dumpArgs, extra), append([]string{extra}, loadArgs...)
+	}
+	s1, o1, e1, names, contents := verif.RunCmd(dumpArgs, stdin, []string{"p.bcl"}, []string{src})
 	found := false
 	for _, n := range names {
 		found = found || n == bfile
